@@ -72,6 +72,20 @@ def impl(op, a):
         t = _new17(a); raw = t.pack(); return [list(raw), [t.pus_tm.packet_len]]
     if op == 611:
         return _fields(Service17Tm.unpack(bytes(a[0]), a[1][0]).pus_tm)
+    if op == 612:
+        t = _new(a)
+        for o in a[3:]:
+            k = o[0]
+            if k == 0: t.pack()
+            elif k == 2: t.calc_crc()
+            elif k == 3: t.tm_data = bytes(o[1:])
+            elif k == 5: t.apid = o[1]
+            elif k == 7:
+                from spacepackets.ccsds.spacepacket import SequenceFlags
+                t.seq_flags = SequenceFlags(o[1])
+        sp = t.to_space_packet().pack()
+        raw = t.pack()
+        return [list(sp), list(raw), [t.packet_len]]
     raise RuntimeError("bad op")
 
 
@@ -172,6 +186,17 @@ def streams(tier, rng):
         a = pc.rand_tm_args(rng, 20)
         cases.append((607, a + [pc.rbytes(rng, rng.randrange(0, 20))]))
     yield "tm_data_setter", "exact", cases
+    cases = []
+    for _ in range(6000 if big else 1200):
+        a = pc.rand_tm_args(rng, 12)
+        ops = []
+        for _ in range(rng.randrange(0, 6)):
+            k = rng.choice([0, 0, 2, 3, 5])
+            if k == 3: ops.append([3] + pc.rbytes(rng, rng.randrange(0, 10)))
+            elif k == 5: ops.append([5, pc.pick(rng, pc.BND11, 2048)])
+            else: ops.append([k])
+        cases.append((612, a + ops))
+    yield "setter_histories_then_views", "exact", cases
 
 
 def oracle_spec(case, ires):
@@ -254,6 +279,22 @@ def oracle(case, ires, sres):
             exp = pc.tm_layout(service, subservice, apid, seq, msgcnt, ref, dest, version, a[1], a[3])
             if err or ires[1] != exp or ires[2] != [len(exp)]:
                 return ("C11/PusTm.tm_data/stale-length", "after tm_data := %d octets: %s, fresh TM packs %d octets" % (len(a[3]), str(ires)[:120], len(exp)))
+        return None
+    if op == 612:
+        service, subservice, apid, seq, msgcnt, ref, dest, version = a[0]
+        src = list(a[2])
+        for o in a[3:]:
+            if o[0] == 3: src = list(o[1:])
+            elif o[0] == 5: apid = o[1]
+        f = [[service, subservice, apid, seq, msgcnt, ref, dest, version], a[1], src]
+        if valid_args(a) and valid_args(f):
+            exp = pc.tm_layout(*f[0], f[1], f[2])
+            if err:
+                return ("C11/PusTm.history/raises", "valid history raised %s" % (ires,))
+            if ires[2] != exp or ires[3] != [len(exp)]:
+                return ("C11/PusTm.history/pack-differs-from-fresh", "after %s pack gives %s (packet_len %s), fresh gives %s" % (a[3:], ires[2][:20], ires[3], exp[:20]))
+            if ires[1] != exp:
+                return ("C03/PusTm.to_space_packet/stale-octets", "after %s the space-packet view packs ...%s but pack() gives ...%s" % (a[3:], ires[1][-6:], exp[-6:]))
         return None
     if op == 608:
         b, tl = a[0], a[1][0]
